@@ -121,6 +121,7 @@ func c10Isolation(c *Chooser, env *Env, defective, faults bool) *Outcome {
 		w.Opts.Shellcheck, w.Opts.Pyflakes = "shellcheck", "pyflakes"
 		o.probe("tools_enabled", 1)
 	}
+	ApplyLogLevel(c, w)
 	switch c.Int("world.outmode", 5) {
 	case 1:
 		w.Opts.Oneline = true
